@@ -23,6 +23,9 @@ type C03Case struct {
 	NoNest bool    `json:"nonest,omitempty"` // SetNoNesting(true): only non-Stack values are offered, so capacity must be enforced exactly as without it
 	Policy bool    `json:"policy,omitempty"` // an accept-everything push policy is installed (capacity must be enforced all the same)
 	Ops    []C03Op `json:"ops"`
+	// a validity closure that REJECTS (1: always; 2: while the stack holds fewer than two values): what the owner thinks
+	// of the content has no say in the capacity, its getters or its enforcement
+	ValidRej int `json:"validrej,omitempty"`
 }
 
 func newStackCapArg(kind string, capArg int) stackage.Stack {
@@ -99,8 +102,24 @@ func runC03(c C03Case) (st Stats, err error) {
 		if c.NoNest {
 			s.SetNoNesting(true)
 		}
+		switch c.ValidRej {
+		case 1:
+			s.SetValidityPolicy(func(...any) error { return errValidityRejects })
+		case 2:
+			s.SetValidityPolicy(func(x ...any) error {
+				if len(x) > 0 {
+					if h, ok := x[0].(stackage.Stack); ok && h.Len() >= 2 {
+						return nil
+					}
+				}
+				return errValidityRejects
+			})
+		}
 	}); p != "" {
 		return st, violf("setup/panic", "setup panicked: %s", p)
+	}
+	if c.ValidRej != 0 {
+		st.Class("rejecting-validity-closure")
 	}
 	if c.NoNest {
 		st.Class("no-nesting-receiver")
@@ -115,7 +134,7 @@ func runC03(c C03Case) (st Stats, err error) {
 	next := func() any {
 		tag++
 		v := tagValueP(tag)
-		if _, isStack := v.(stackage.Stack); isStack && c.NoNest {
+		if _, isStack := unwrapStack(v); isStack && c.NoNest {
 			return tagValue(tag) // (a no-nesting receiver is only offered non-Stack values here)
 		}
 		return v
@@ -384,6 +403,9 @@ func genC03(t *rapid.T, tier Tier) C03Case {
 		boundaryCap = true
 	}
 	c.Policy = rapid.IntRange(0, 3).Draw(t, "policy?") == 0
+	if rapid.IntRange(0, 4).Draw(t, "validrej?") == 0 {
+		c.ValidRej = rapid.IntRange(1, 2).Draw(t, "validrej")
+	}
 	c.Amb = drawAmbient(t, false)
 	c.NoNest = rapid.IntRange(0, 3).Draw(t, "nonest") == 0
 	ops := []string{"push", "push", "fill", "fill", "insert", "insert", "pop", "pop", "remove", "reset", "transfer", "marshal", "replace", "reverse", "rophase", "selftransfer"}
